@@ -24,6 +24,8 @@ pub fn run_property(p: &str) {
         "C04" => c04(),
         "C05" => c05(),
         "C09" => c09(),
+        "C06" => c06(),
+        "C13" => c13(),
         other => {
             eprintln!("no loom models for {other}");
             std::process::exit(2)
@@ -182,4 +184,63 @@ fn c09() {
         jobs.push(Job { harness: "c09", cfg: json!({"cap": 1, "p": 3, "n": 1, "early_permits": 0, "pb": pb}) });
     }
     finish(rep, jobs, "Capacities 1..3, one or two producers appending more entries than fit, a writer whose stream blocks on a gate with 0/1/2 early permits (0 = completely stalled): every append returns in every schedule (a blocking append is a loom deadlock), survivors are in append order, an entry is lost only if at least `capacity` newer entries exist, the newest `capacity` entries of a single producer always survive, and the metrique_queue_overflows counter equals the number of discarded entries.");
+}
+
+fn c06() {
+    let rep = Report::from_args("C06", "model_checking");
+    let tier = rep.tier;
+    // few synchronisation points per object: the preemption bound can be generous
+    let pb = tier.pick(3, 5);
+    let mut jobs = Vec::new();
+    let mut add = |cfg: Value| jobs.push(Job { harness: "c06", cfg });
+    let placements: Vec<Vec<Vec<&str>>> = vec![
+        vec![vec!["owner"], vec!["g1"]],
+        vec![vec!["owner"], vec!["f1"]],
+        vec![vec!["owner"], vec!["g1"], vec!["f1"]],
+        vec![vec!["owner"], vec!["g1"], vec!["g2"]],
+        vec![vec!["owner"], vec!["f1"], vec!["f2"]],
+        vec![vec!["owner", "g1"], vec!["f1"]],
+        vec![vec!["g1", "owner"], vec!["f1"]],
+        vec![vec!["owner"], vec!["g1", "f1"]],
+        vec![vec!["owner"], vec!["f1", "g1"]],
+        vec![vec!["h1"], vec!["h2"]],
+        vec![vec!["h1"], vec!["h2"], vec!["g1"]],
+        vec![vec!["h1"], vec!["h2"], vec!["f1"]],
+        vec![vec!["h1", "g1"], vec!["h2", "f1"]],
+        vec![vec!["owner"], vec!["g1"], vec!["g2"], vec!["f1"]],
+        vec![vec!["h1"], vec!["h2"], vec!["g1"], vec!["f1"]],
+    ];
+    for p in &placements {
+        // four concurrent droppers are expensive: one preemption less there
+        let pb = if p.len() >= 4 { pb - 1 } else { pb };
+        add(json!({"threads": p, "pb": pb}));
+    }
+    // prefixes dropped by main first (non-initial states), incl. a guard created after a force drop
+    add(json!({"pre": ["owner"], "threads": [["g1"], ["f1"]], "pb": pb}));
+    add(json!({"pre": ["owner"], "threads": [["g1"], ["g2"]], "pb": pb}));
+    add(json!({"pre": ["f1"], "threads": [["owner"], ["g1"]], "pb": pb}));
+    add(json!({"pre": ["f1"], "late_guard": true, "threads": [["owner"], ["g2"]], "pb": pb}));
+    add(json!({"pre": ["f1"], "late_guard": true, "threads": [["owner"], ["g2"], ["g1"]], "pb": pb}));
+    add(json!({"pre": ["g1"], "threads": [["owner"], ["f1"]], "pb": pb}));
+    finish(rep, jobs, "Owner / cloned handles / flush guards / force-flush guards of one real AppendAndCloseOnDrop distributed over 2-4 threads (every listed placement, with and without a sequential prefix), all schedules within the preemption bound: the sink records the set of drops that had started at the instant of append; exactly one append, never before owner and handles are gone and (all guards gone or a force guard gone), carrying the owner's last mutation.");
+}
+
+fn c13() {
+    let rep = Report::from_args("C13", "model_checking");
+    let tier = rep.tier;
+    let pb = tier.pick(3, 5);
+    let mut jobs = Vec::new();
+    for mode in ["wait", "discard"] {
+        for lazy in [false, true] {
+            for force in [false, true] {
+                for order in ["concurrent", "guard-first", "parent-first"] {
+                    jobs.push(Job { harness: "c13", cfg: json!({"mode": mode, "lazy": lazy, "force": force, "order": order, "pb": pb}) });
+                }
+            }
+        }
+        for force in [false, true] {
+            jobs.push(Job { harness: "c13", cfg: json!({"mode": mode, "both_slots": true, "force": force, "order": "concurrent", "pb": pb}) });
+        }
+    }
+    finish(rep, jobs, "Parent drop, slot-guard drop (Slot and LazySlot, one or both per entry, wait and discard mode) and an optional force-flush-guard drop on separate threads, all schedules within the preemption bound: exactly one append; in wait mode without a force guard the value is present, as last mutated, and the append happens after the guard's drop began; in discard mode a present value is never stale and never from a guard whose drop had not begun; the parent's own field is unaffected; a slot opens at most once.");
 }
